@@ -8272,6 +8272,13 @@ class IdentifierPreparer:
                 name = name[0 : max_ - 8] + "_" + util.md5_hex(name)[-4:]
         else:
             self.dialect.validate_identifier(name)
+            if len(name) > max_:
+                # the index / constraint limit may be smaller than
+                # max_identifier_length (e.g. MySQL 64 vs. 255)
+                raise exc.IdentifierError(
+                    "Identifier '%s' exceeds maximum length of %d characters"
+                    % (name, max_)
+                )
 
         if not _alembic_quote:
             return name
